@@ -119,6 +119,7 @@ type pathState struct {
 	gomaxprocs      int
 	knownEvents     []knownEvent
 	faultSites      int
+	fmtTerms        []*smt.Term // symbolic integers that have been formatted on this path
 }
 
 // Options for a run.
